@@ -74,6 +74,24 @@ def closerOK (signer owner : Addr) (isAdmin : Bool) : Bool := signer == owner ||
 def openTakesOK (traderBefore traderAfter clpBefore clpAfter collAmt : Nat) : Bool :=
   traderAfter + collAmt == traderBefore && clpAfter == clpBefore + collAmt
 
+/-! ### the backing identity of C01, restricted to the margin world -/
+
+/-- what the pool records say the clp module account holds of token `d`: balance plus custody — of
+    every pool for the native token, of the pool of that symbol for an external token (there are no
+    reward buckets in the margin histories) -/
+def heldFor (pools : List Pool) (d : Asset) : Nat :=
+  if isNative d then (pools.map (fun p => p.nBal + p.nCust)).sum
+  else ((pools.filter (fun p => p.sym = d)).map (fun p => p.eBal + p.eCust)).sum
+
+/-- **margin backing** (C01 for margin processing): for every listed token the clp module account's
+    bank balance is exactly what the pool records account for -/
+def backingOK (pools : List Pool) (clpBalances : List (Asset × Nat)) : Bool :=
+  clpBalances.all (fun db => db.2 == heldFor pools db.1)
+
+/-- the same on a model state, for a list of tokens -/
+def Backing (s : State) (denoms : List Asset) : Bool :=
+  backingOK s.pools (denoms.map (fun d => (d, s.bank.bal s.clp.clpAddr d)))
+
 /-- the ledger part of two pool records agrees -/
 def sameLedgerB (p0 p : Pool) : Bool :=
   p0.sym == p.sym && p0.nCust == p.nCust && p0.eCust == p.eCust && p0.nLiab == p.nLiab && p0.eLiab == p.eLiab
